@@ -86,6 +86,10 @@ func check(tb ev.TB, c gsim.Case) (labels []string, nontrivial bool) {
 		ev.Inconclusive("close_hung") // C09's business
 		return nil, false
 	}
+	if sig, msg := checkAssignments(res, c); sig != "" {
+		fail(sig, "%s", msg)
+		return
+	}
 	lab := map[string]bool{}
 	// application side, per member and partition
 	delivered := map[int]map[tp][]delivery{}
@@ -287,12 +291,8 @@ func check(tb ev.TB, c gsim.Case) (labels []string, nontrivial bool) {
 	}
 	// I5: quiescence
 	if res.Quiesced && !c.StartLast {
-		topics := 1
-		if c.MultiTopic {
-			topics = c.Topics
-		}
 		missing := 0
-		for ti := 0; ti < topics; ti++ {
+		for _, ti := range res.DueTopics { // topics a surviving member subscribes to
 			t := res.Topics[ti]
 			for p, recs := range res.Stored[t] {
 				for _, r := range recs {
@@ -411,6 +411,10 @@ func genCase(t *rapid.T) gsim.Case {
 			gsim.Step{Op: "fetch", Member: 0, N: 8}, gsim.Step{Op: "commit", Member: 0, Pick: 7, UpTo: true, Mix: true},
 			gsim.Step{Op: "fetch", Member: 0, N: 4}, gsim.Step{Op: "commit", Member: 0, Pick: 3, UpTo: true, Mix: true})
 	}
+	if c.MultiTopic && c.Members >= 2 && rapid.IntRange(0, 3).Draw(t, "narrow") == 0 {
+		// members with different subscriptions: the first member (usually the group leader) only reads the first topic
+		c.NarrowMembers = []int{0}
+	}
 	abandonStratum := !mixStratum && rapid.IntRange(0, 7).Draw(t, "abandonStratum") == 0
 	if abandonStratum {
 		// A synchronous CommitMessages gives up (its context ends) while its commit is still in flight at a slow coordinator;
@@ -426,6 +430,22 @@ func genCase(t *rapid.T) gsim.Case {
 			gsim.Step{Op: "fetch", Member: 0, N: 3}, gsim.Step{Op: "commit", Member: 0, Pick: 2, UpTo: true, TimeoutMs: rapid.SampledFrom([]int{10, 40}).Draw(t, "giveUpMs")},
 			gsim.Step{Op: "sleep", N: int(slow) + 100},
 			gsim.Step{Op: "fetch", Member: 0, N: 2}, gsim.Step{Op: "commit", Member: 0, Pick: 1, UpTo: true})
+	}
+	if !mixStratum && !abandonStratum && rapid.IntRange(0, 7).Draw(t, "partialRefusal") == 0 {
+		// the coordinator refuses some partitions of a commit (not the first entry) on every attempt: a synchronous
+		// CommitMessages covering several partitions must not return nil
+		c.CommitIntervalMs[0] = 0
+		if c.Partitions[0] < 3 {
+			c.Partitions[0] = 3
+			for len(c.Initial[0]) < 3 {
+				c.Initial[0] = append(c.Initial[0], 0)
+			}
+		}
+		for nth := 0; nth <= 4; nth++ {
+			c.Faults = append(c.Faults, gsim.Fault{API: "commit", Nth: nth, Kind: "code-not-first", Code: rapid.SampledFrom([]int16{3, 12, 28}).Draw(t, "partialCode")})
+		}
+		c.Steps = append(c.Steps, gsim.Step{Op: "append", Topic: 0, Part: 0, N: 4}, gsim.Step{Op: "append", Topic: 0, Part: 1, N: 4}, gsim.Step{Op: "append", Topic: 0, Part: 2, N: 4},
+			gsim.Step{Op: "fetch", Member: 0, N: 9}, gsim.Step{Op: "commit", Member: 0, Pick: 8, UpTo: true})
 	}
 	joined := map[int]bool{0: true}
 	n := rapid.IntRange(3, 28).Draw(t, "steps")
